@@ -246,3 +246,19 @@ Definition setTip (fuel : nat) (t : ftree) (to : N) : fres :=
          | _ => FOk (mkT (t_blocks t) newc (t_tips t) (t_fpidx t))
          end
   end.
+
+(* ------------------------------------------------------------------ VbkBlockTree::finalizeBlocks *)
+(* algorithm.hpp min_or_default: the minimum of the container, `default_` for an empty one *)
+Definition min_or_default (l : list N) (d : N) : N :=
+  match l with [] => d | x :: r => fold_left N.min r x end.
+(* the variant that returns the default whenever the minimum is the FIRST element (`it == c.begin()`) *)
+Definition min_or_default_first_bug (l : list N) (d : N) : N :=
+  match l with
+  | [] => d
+  | x :: r => let m := fold_left N.min r x in if m =? x then d else m
+  end.
+
+(* VBK finalization is bounded by the lowest VBK height referenced by the BTC tip:
+   maxFinalizeBlockHeight = min_or_default(btctip->getRefs(), INT32_MAX) *)
+Definition vbk_finalizeBlocks (fuel : nat) (t : ftree) (maxReorg preserve : N) (btc_tip_refs : list N) : ftree :=
+  finalizeBlocks fuel t maxReorg preserve (min_or_default btc_tip_refs 2147483647).
